@@ -508,6 +508,8 @@ def standard(ctx, plans, own, crash_is_own=False, need=()):
         if not plan.simulate:
             ctx.model_checked(r)
         behaviours = [[s["e"] for s in b] for b in beh]
+        if not behaviours:
+            raise MachineryError("plan %s/%s produced no behaviour (model %d states): mis-configured plan" % (plan.name, plan.table, r.distinct))
         if plan.transform:
             behaviours = plan.transform(ctx, behaviours, svcs)
         if plan.tail:
